@@ -413,6 +413,11 @@ func c12SingleFault(w *World, sig map[string]string, cs *Setup, ds *DSetup) *Vio
 			}
 		case isParent(res) && freq.Verb == "update" && (kind == "500" || kind == "503" || kind == "504" || kind == "neterr" || kind == "lost" || kind == "422" || kind == "410"):
 			expect = "error"
+		case isParent(res) && freq.Verb == "get" && freq.Sub == "" && (kind == "500" || kind == "503" || kind == "504"):
+			// the live read of the parent inside a sync (before an adoption, before the status
+			// or finalizer write): when it fails, what depended on it has not been done
+			// (a connection error on a GET is retried by client-go itself and is not seen)
+			expect = "error"
 		}
 	}
 	w.Probe("c12:expect-" + expect)
